@@ -18,6 +18,10 @@ type C13Case struct {
 	Valid   bool   `json:"valid"`
 	Defect  string `json:"defect,omitempty"`
 	Notable string `json:"notable,omitempty"` // why a valid pattern is non-trivial
+	// Companions are further valid patterns (mostly the same host under other schemes
+	// and ports) listed next to Pattern in a second configuration; Pos is where Pattern goes.
+	Companions []Str `json:"companions,omitempty"`
+	Pos        int   `json:"pos,omitempty"`
 }
 
 // known-valid Punycode labels
@@ -302,7 +306,32 @@ func genLongDomain(t *rapid.T, n int) string {
 func c13Gen(t *rapid.T) C13Case {
 	g, notable := genValidPattern(t)
 	if chance(t, "valid", 45) {
-		return C13Case{Pattern: Str(g.String()), Valid: true, Notable: notable}
+		c := C13Case{Pattern: Str(g.String()), Valid: true, Notable: notable}
+		if chance(t, "companions", 40) {
+			for i, n := 0, intIn(t, "ncomp", 1, 5); i < n; i++ {
+				x := g
+				switch uniform(t, "compkind", 5) {
+				case 0, 1:
+					x.scheme = pick(t, "compscheme", []string{"http", "https", "ws", "wss", "capacitor", "app", "ftp", "a", "zz", "web+x", "httpss"})
+				case 2:
+					x.port = pick(t, "compport", []string{"", "*", "8080", "8443", "1", "65535"})
+				case 3:
+					x.scheme = genScheme(t, false)
+					x.port = pick(t, "compport2", []string{"", "*", "8080", g.port})
+				default:
+					x, _ = genValidPattern(t)
+				}
+				if x.kind != "domain" && x.scheme == "https" {
+					x.scheme = "http" // https with an IP host is an undocumented grey zone
+				}
+				if defaultPort(x.scheme, x.port) {
+					x.port = ""
+				}
+				c.Companions = append(c.Companions, Str(x.String()))
+			}
+			c.Pos = uniform(t, "pos", len(c.Companions)+1)
+		}
+		return c
 	}
 	for {
 		d := pick(t, "defect", c13Defects)
@@ -344,6 +373,28 @@ func c13Check(c C13Case, rec *Recorder) *Disc {
 				}
 			}
 		}
+		if len(c.Companions) > 0 {
+			// the same claims hold when the pattern is one of several in the list
+			pos := min(max(c.Pos, 0), len(c.Companions))
+			list := append(append(append([]Str{}, c.Companions[:pos]...), c.Pattern), c.Companions[pos:]...)
+			cfg2 := Cfg{Origins: list, TolPSL: true, TolInsecure: true}
+			m2, err2 := cors.NewMiddleware(cfg2.Cors())
+			rec.Eval(1)
+			if err2 != nil {
+				return discf("patterns %q are each of the documented form but the list is rejected: %v", ss(list), err2)
+			}
+			rec.Class("with-companions")
+			for _, q := range list {
+				qp, ok := SplitPat(string(q))
+				if !ok || qp.Wild || qp.Port == "*" {
+					continue
+				}
+				g, pf, bad := originVerdicts(m2.Wrap, string(q))
+				if bad != "" || !g || !pf {
+					return discf("accepted wildcard-free pattern %q, listed among %q, presented verbatim as Origin is not allowed (GET allowed=%v preflight allowed=%v %s)", string(q), ss(list), g, pf, bad)
+				}
+			}
+		}
 		return nil
 	}
 	rec.NonTrivial("invalid", p)
@@ -381,7 +432,7 @@ func c13Prop() Prop[C13Case] {
 	return Prop[C13Case]{ID: "C13", Gen: c13Gen, Check: c13Check,
 		Rule: "generator: patterns built from the documented grammar (scheme up to 64 bytes incl. near-'file' schemes; LDH domains up to exactly 253 bytes, 63-byte labels, Punycode, trailing dot; IPv4/IPv6 canonical literals via net/netip; *. before domains up to 251 bytes; " +
 			"ports absent/*/1..65535/other scheme's default; a forced 'every maximum at once' branch: 64-byte scheme + 253-byte domain + trailing dot + 5-digit port) - valid by construction - and 36 single-defect mutations of them - invalid by construction. " +
-			"Oracle: valid => accepted, wildcard-free patterns match themselves verbatim (GET and preflight), wildcard patterns match an instance; invalid => exactly one *UnacceptableOriginPatternError with Value == the string, Reason in {invalid, prohibited} (prohibited for null and file). " +
+			"Oracle: valid => accepted, wildcard-free patterns match themselves verbatim (GET and preflight), wildcard patterns match an instance, and (40% of valid cases) the same when the pattern is listed at any position among 1-5 companion patterns (the same host under other schemes and ports, or unrelated valid patterns): the list is accepted and every wildcard-free member matches itself; invalid => exactly one *UnacceptableOriginPatternError with Value == the string, Reason in {invalid, prohibited} (prohibited for null and file). " +
 			"non-trivial = valid pattern with a component at a documented maximum, an IP literal, Punycode or trailing dot, or any invalid pattern; distinct by pattern string.",
 		Assumptions: []string{"grey zones not generated: https with IP host, '_' in schemes or labels, hyphens in label positions 3-4, TLD starting with a digit, *. + 251-byte domain + trailing dot"}}
 }
